@@ -285,6 +285,7 @@ Section Apply.
   Variable len : Z.                                (* file length *)
   Variable pos0 : Z.                               (* position on entry = orig_offset *)
   Variable o : outcome.                            (* what seeker.run() does *)
+  Variable destructive : bool.                     (* the keyword argument *)
 
   Definition ap_state : Type := (Z * Z)%type.      (* position, new_offset *)
   Definition ap_call (k : nat) (e : ev) (st : ap_state) : ires ap_state :=
@@ -303,9 +304,13 @@ Section Apply.
         else INormal st
     | _ => INormal st
     end.
-  (* destructive, new_offset not None: the first test of the try body is
-     false; the second (the cache write) has no effect on the position *)
-  Definition ap_guard (k : nat) (st : ap_state) : bool := false.
+  (* new_offset is not None: the first test of the try body is `not
+     destructive`; the second (the cache write) has no effect on the position *)
+  Definition ap_guard (k : nat) (st : ap_state) : bool :=
+    match k with
+    | O => negb destructive   (* new_offset is None or not destructive *)
+    | _ => false
+    end.
 
   Definition ap_interp (tree : list stm) : option Z :=
     match interp_list ap_state (is_call ["fd_seek"]) ap_call ap_guard None
